@@ -146,59 +146,70 @@ Proof.
   destruct H as [H1 H2]. split; [exact H1|]. apply IH; [exact H2 | intros y Hy; apply Hle; right; exact Hy | apply Hle; left; reflexivity].
 Qed.
 
-(* invariant: queue sorted, nothing scheduled before `now`, rows stamped up to `now` in non-decreasing order *)
+(* invariant: queue sorted, nothing scheduled before `now`, rows stamped up to `now` in non-decreasing order,
+   logger/dt positive once set *)
 Definition sinv (now : Z) (s : sstate) : Prop :=
   sorted_by_time (queue s) /\ (forall y, In y (queue s) -> now <= e_t y) /\
-  times_nondecreasing 0 (map fst (rows s)) /\ (forall x, In x (map fst (rows s)) -> x <= now) /\ 0 <= now.
+  times_nondecreasing 0 (map fst (rows s)) /\ (forall x, In x (map fst (rows s)) -> x <= now) /\ 0 <= now /\
+  (forall d, log_dt s = Some d -> 0 < d).
 
 Lemma fire_inv ps s t pid q now :
-  (forall p, In p ps -> 0 < period p) ->
+  (forall p, In p ps -> proc_ok p) ->
   sorted_by_time q -> (forall y, In y q -> t <= e_t y) -> now <= t ->
   times_nondecreasing 0 (map fst (rows s)) -> (forall x, In x (map fst (rows s)) -> x <= now) -> 0 <= now ->
+  (forall d, log_dt s = Some d -> 0 < d) ->
   sinv t (fire ps s t pid q).
 Proof.
-  intros Hp Hs Hq Hnow Hr Hrl H0. unfold fire.
+  intros Hp Hs Hq Hnow Hr Hrl H0 Hd. unfold fire.
   destruct (nth_error ps pid) as [p|] eqn:E.
-  - assert (Pp : 0 < period p) by (apply Hp; eapply nth_error_In; exact E).
-    destruct (kind p); unfold sinv; simpl.
+  - assert (Pp : proc_ok p) by (apply Hp; eapply nth_error_In; exact E). destruct Pp as [Pp Pv].
+    destruct (kind p) as [tp| |v]; unfold sinv; simpl.
+    + repeat split; try lia; try exact Hd.
+      * apply insert_sorted, Hs.
+      * intros y Hy. apply insert_in in Hy. destruct Hy as [->|Hy]; [simpl; lia | apply Hq, Hy].
+      * exact Hr.
+      * intros x Hx. specialize (Hrl x Hx). lia.
+    + assert (Pd : 0 < match log_dt s with Some d => d | None => period p end)
+        by (destruct (log_dt s) as [d|] eqn:Ed; [apply Hd; reflexivity | exact Pp]).
+      rewrite map_app. simpl. repeat split; try lia; try exact Hd.
+      * apply insert_sorted, Hs.
+      * intros y Hy. apply insert_in in Hy. destruct Hy as [->|Hy]; [simpl; lia | apply Hq, Hy].
+      * apply nondecr_app; [exact Hr | intros x Hx; specialize (Hrl x Hx); lia | lia].
+      * intros x Hx. rewrite in_app_iff in Hx. destruct Hx as [Hx|[<-|[]]]; [specialize (Hrl x Hx); lia | lia].
     + repeat split; try lia.
       * apply insert_sorted, Hs.
       * intros y Hy. apply insert_in in Hy. destruct Hy as [->|Hy]; [simpl; lia | apply Hq, Hy].
       * exact Hr.
       * intros x Hx. specialize (Hrl x Hx). lia.
-    + rewrite map_app. simpl. repeat split; try lia.
-      * apply insert_sorted, Hs.
-      * intros y Hy. apply insert_in in Hy. destruct Hy as [->|Hy]; [simpl; lia | apply Hq, Hy].
-      * apply nondecr_app; [exact Hr | intros x Hx; specialize (Hrl x Hx); lia | lia].
-      * intros x Hx. rewrite in_app_iff in Hx. destruct Hx as [Hx|[<-|[]]]; [specialize (Hrl x Hx); lia | lia].
+      * intros d Ed. injection Ed as <-. exact Pv.
   - unfold sinv. simpl. repeat split; try assumption; try lia.
     intros x Hx. specialize (Hrl x Hx). lia.
 Qed.
 
-Lemma srun_inv ps tf fuel : (forall p, In p ps -> 0 < period p) ->
+Lemma srun_inv ps tf fuel : (forall p, In p ps -> proc_ok p) ->
   forall now s, sinv now s -> exists now', sinv now' (srun ps tf fuel s).
 Proof.
   intro Hp. induction fuel as [|f IH]; intros now s H; simpl; [exists now; exact H|].
   destruct (queue s) as [|e q] eqn:Q; [exists now; exact H|].
   destruct (Z.ltb (e_t e) tf); [|exists now; exact H].
-  destruct H as (Hs & Hq & Hr & Hrl & H0). rewrite Q in Hs, Hq. simpl in Hs. destruct Hs as [Hs1 Hs2].
+  destruct H as (Hs & Hq & Hr & Hrl & H0 & Hd). rewrite Q in Hs, Hq. simpl in Hs. destruct Hs as [Hs1 Hs2].
   apply (IH (e_t e)). apply (fire_inv ps s (e_t e) (e_pid e) q now); try assumption.
   - apply Hq. left. reflexivity.
 Qed.
 
-Lemma start_inv all : (forall p, In p all -> 0 < period p) ->
+Lemma start_inv all : (forall p, In p all -> proc_ok p) ->
   forall ps pid s, sinv 0 s -> sinv 0 (start ps all pid s).
 Proof.
   intro Hp. induction ps as [|p ps IH]; intros pid s H; simpl; [exact H|].
-  apply IH. destruct H as (Hs & Hq & Hr & Hrl & H0).
+  apply IH. destruct H as (Hs & Hq & Hr & Hrl & H0 & Hd).
   apply (fire_inv all s 0 pid (queue s) 0); try assumption; lia.
 Qed.
 
 (* logger rows carry non-decreasing time stamps, whatever the processes, periods and horizon *)
-Theorem logger_rows_time_nondecreasing ps tf fuel : (forall p, In p ps -> 0 < period p) ->
+Theorem logger_rows_time_nondecreasing ps tf fuel : (forall p, In p ps -> proc_ok p) ->
   times_nondecreasing 0 (map fst (simulate ps tf fuel)).
 Proof.
-  intro Hp. unfold simulate.
-  assert (H0 : sinv 0 s0) by (unfold sinv, s0; simpl; repeat split; try lia; intros ? []).
+  intro Hp. unfold simulate, final.
+  assert (H0 : sinv 0 s0) by (unfold sinv, s0; simpl; repeat split; try lia; try (intros ? []; fail); try discriminate).
   destruct (srun_inv ps tf fuel Hp 0 _ (start_inv ps Hp ps 0%nat s0 H0)) as [now' H]. apply H.
 Qed.
